@@ -84,13 +84,14 @@ def one(rng):
                 nontrivial=multi, tags=["markov"] if mo else ["deterministic"])
 
 
-def cli_big(rng):
-    """`treetools grammar` on a treebank of more than a hundred sentences: the counts in the written grammar balance against the trees"""
+def cli_big(rng, small=False):
+    """`treetools grammar` on a treebank of more than a hundred sentences (small: a handful), with and without --markov words:
+    the counts in the written grammar balance against the trees"""
     import io
     import cli
     from impl import treeoutput, clone
     base = gram.gen_treebank(rng, kmax=4, nmax=6, disc=rng.random() < 0.5)
-    n = rng.choice([100, 101, 150, 201, 230])
+    n = rng.choice([100, 101, 150, 201, 230]) if not small else rng.choice([4, 6, 9, 12])
     ts = []
     text = ""
     for i in range(n):
@@ -106,7 +107,11 @@ def cli_big(rng):
     gtype = rng.choice(["treebank", "leftright", "optimal"])
     with cli.Scratch() as sc:
         src = sc.write("tb.export", text)
-        rc, _, err = cli.run_cli(["grammar", src, sc.path("g"), gtype, "--dest-format", "pmcfg"])
+        mw = []
+        if gtype != "treebank" and rng.random() < (0.7 if small else 0.4):
+            # what the command does between `--markov` and `binarize` (defaults, trimming of contexts) must conserve counts too
+            mw = rng.choice([["v:1"], ["h:1"], ["v:2", "h:1"], ["nofanout"], ["v:0", "h:0"], ["v:1", "h:2", "nofanout"], ["v:3"], ["v:0"]])
+        rc, _, err = cli.run_cli(["grammar", src, sc.path("g"), gtype, "--dest-format", "pmcfg"] + ((["--markov"] + mw) if mw else []))
         if rc != 0:
             l = Line("pred", "P.C08.file", ["", "", ""], note="command failed: " + err[-200:])
             l.expect = "command-must-succeed"
@@ -114,7 +119,7 @@ def cli_big(rng):
         gl = gram.file_lines(sc.path("g") + ".pmcfg")
     enc = "|".join(proto.enc_tree(t) for t in ts)
     lines = [Line("pred", "P.C08.file", [enc, gram.enc_lines(gl), gram.enc_lexicon(lex)])]
-    return Case("cli-big", {"sentences": n, "gramtype": gtype, "distinct_trees": [proto.pretty_tree(t) for t in base]}, lines, nontrivial=True)
+    return Case("cli-small" if small else "cli-big", {"sentences": n, "gramtype": gtype, "markov": mw, "distinct_trees": [proto.pretty_tree(t) for t in base]}, lines, nontrivial=True)
 
 
 def gen(seed, tier, scale):
@@ -128,6 +133,8 @@ def gen(seed, tier, scale):
         yield 710000 + i, c
     for i in range((4 if tier == "quick" else 40) * scale):
         yield 700000 + i, cli_big(case_rng(seed, ID, 700000 + i))
+    for i in range((40 if tier == "quick" else 600) * scale):
+        yield 720000 + i, cli_big(case_rng(seed, ID, 720000 + i), small=True)
     idx = 0
     for _ in range((1000 if tier == "quick" else 20000) * scale):
         rng = case_rng(seed, ID, idx)
